@@ -30,6 +30,7 @@ def valid_frame(rng, a):
 
 class C19(PropBase):
     id = "C19"
+    shown_columns = ('CALLSIGN', 'ALT B', 'SQWK', 'LATITUDE', 'LONGITUDE', 'GSP', 'TRK', 'VRATE', 'W', 'S')
     lean_modules = ["SqModel.Props.C19", "SqModel.Props.C19Table", "SqModel.Props.C19Obs", "SqModel.Proofs.Dispatch", "SqModel.Proofs.Bridge", "SqModel.Proofs.BridgePlane", "SqModel.Proofs.BridgeTable"]
     extractors = ["dispatch", "trans"]
     rule = ("histories of 30-200 generated frames of every format (and the first 3000 lines of three recorded files) run through "
